@@ -1,7 +1,7 @@
 (* Correspondence cases for C07: fee calculator vs VM cost per signer shape, the fee boundary, the
    admission decision on transactions valid / invalid in chosen respects, and block packing. *)
 From NG Require Import Common.Tactics Common.HarnessLib.
-From NG Require Export Admission.Fee Admission.Admit Admission.Conflicts Admission.Refresh Mempool.Model Mempool.Spec.
+From NG Require Export Admission.Fee Admission.Admit Admission.Conflicts Admission.Refresh Admission.RefreshBal Mempool.Model Mempool.Spec.
 From NG Require VM.Model Admission.VMScripts.
 From Coq Require String Ascii.
 Open Scope N_scope.
@@ -35,7 +35,12 @@ Inductive case :=
        1 own non-standard script, 2 deployed contract) and whether it verifies in state k (known by construction);
        ops in order: (true, _) = a block was accepted (next state), (false, _) = the transaction was submitted;
        second component: is it in the pool afterwards *)
-| CPack (maxtx : nat) (maxsize maxsysfee hdr real_hdr : N) (pool : list tx) (bal : list (payer * N)) (k : nat).
+| CPack (maxtx : nat) (maxsize maxsysfee hdr real_hdr : N) (pool : list tx) (bal : list (payer * N)) (k : nat)
+| CRefreshBal (before : list tx) (blk : list N) (bal' : list (payer * N)) (fpb : N) (after : list N)
+    (* the pool before a block (as in CPack), the ids the block took, every payer's GAS balance AFTER the block,
+       the fee per byte in force, and the ids GetVerifiedTransactions lists after the block was added *)
+| CFeeValue (base : N) (s : shape) (calc_fee_impl : N).
+    (* fee.Calculate(base, standard verification script of this shape) as a value, at a governed factor *)
     (* GetVerifiedTransactions (ids = positions, signers = account numbers, Conflicts = position of the named
        pooled transaction or a foreign id) with the senders' GAS balances on chain; ApplyPolicyToTxSet kept the
        first k; hdr = expected size without transactions, real_hdr = encoded block size minus the transactions *)
@@ -194,6 +199,21 @@ Definition check_case (c : case) : N :=
                   && (total_sysfee sel <=? maxsysfee) && (k <=? length l)%nat
                   && pool_premise l (bal_of bal) && pool_premise sel (bal_of bal) in
       code_of ((length b =? k)%nat) spec
+  | CRefreshBal before blk bal' fpb after =>
+      let isok := fun t : tx => negb (existsb (N.eqb (tid t)) blk) in
+      let s' := remove_stale (bal_of bal') fpb isok (pool_of_list before (length before) 0) in
+      let by_id := fun h => find (fun t : tx => tid t =? h) before in
+      let after_txs := flat_map (fun h => match by_id h with Some t => [t] | None => [] end) after in
+      (* specification: what is pooled after the block was pooled before and not taken by the block, is in the
+         same order, and every payer can pay for all of it with what the block left *)
+      let spec := (length after_txs =? length after)%nat
+                  && forallb (fun h => negb (existsb (N.eqb h) blk)) after
+                  && nlist_eqb after (filter (fun h => existsb (N.eqb h) after) (map tid before))
+                  && pool_premise after_txs (bal_of bal') in
+      code_of (nlist_eqb (map tid (vtxs s')) after) spec
+  | CFeeValue base s calc_fee_impl =>
+      let ok := calc_fee base s =? calc_fee_impl in
+      code_of ok ok
   end.
 
 (* the generated case files write hexadecimal strings: make the string notation available to them *)
